@@ -68,6 +68,7 @@ type OracleSet struct {
 	CrossNS         bool // C09: denied cross-namespace references have no influence
 	Gateway         bool // C10: Gateway API admission reference vs configuration
 	Acme            bool // C17: acme signing decisions and queue tracking
+	Spacing         bool // C13 (L2): reconciliations of one kind keep the configured distance, whoever asked for them
 	Property        string
 }
 
@@ -233,6 +234,8 @@ func (r *Run) runTask(g *rt.ParkedGate) {
 	pendingBefore := r.kube.Pending()
 	r.rt.Disk.TakeLog()
 	r.acmeBeforeReconcile()
+	r.curArrival = g.At
+	r.thisFullItem = r.curFullItem // (set by the prologue of the task that is parked at this gate)
 	r.runGate(g)
 	wrote := r.rt.Disk.TakeLog()
 	r.cur.adminCmds = len(r.ha.AdminCmds) - cmds0
@@ -272,6 +275,9 @@ func (r *Run) runTask(g *rt.ParkedGate) {
 func (r *Run) afterReconcile(informersLagging bool) {
 	or := r.or
 	r.acmeAfterReconcile()
+	if or.Spacing {
+		r.checkReconcileSpacing()
+	}
 	if or.Loadable && r.cur.wroteCfg && r.cur.faults == 0 && !r.cur.failed {
 		r.checkLoadable()
 	}
@@ -290,6 +296,9 @@ func (r *Run) afterReconcile(informersLagging bool) {
 		// a secret read for a declaration that is then discarded rewrites the certificate file
 		// early, and the update that notification brings is the one that applies it.
 		r.checkEffective(or.Property, "after-dynamic-update")
+	}
+	if or.Capacity && (r.cur.failed || r.cur.faults > 0) {
+		r.reloadOwed = true // a failed update or reload is retried: the next reload pays that debt
 	}
 	if or.Capacity && !r.cur.failed && r.capLoaded != nil {
 		r.checkCapacity()
